@@ -444,6 +444,10 @@ func run(ci any, r *mon.Rec) {
 func runB(c *Case, r *mon.Rec, rng *rand.Rand, frames [][]byte, ref [][]byte, h uint64) {
 	dev := simdev.New(devSeed(c), "srv")
 	l := srvx.NewMemListener()
+	if c.Seed%5 == 2 {
+		l.DataWithDeadline = true // the listener is any net.Listener: its connections may report bytes together with a timeout
+		r.Cover("layer", "B-bytes-with-deadline-transport")
+	}
 	s := &server.Server{OnErrorFunc: func(error) {}}
 	ctx, cancel := context.WithCancel(context.Background())
 	served := make(chan error, 1)
